@@ -55,6 +55,18 @@ class FCtx(object):
         self.events = self.ex.events
         self.inlined = list(self.ex.inlined)
         # spelling-independent forms (string building, sort keys) for every term the rules look at
+        # conditions are (test, polarity) pairs whose test never starts with ``not``: ``if not c:`` taken is (c, False), and so is
+        # the rest of a block after ``if c: return`` - a guard clause and the nested if it replaces give the same conditions
+        # ... and whose comparison is spelled with the positive operator: ``a != b`` taken is (a == b, False), ``x not in t`` is
+        # (x in t, False) - however the source spells it (operator, ``not``, guard clause, swapped branches)
+        def npair(g):
+            t, pol = T.strip_not(g[0], g[1])
+            if t[0] == "cmp" and len(t[1]) == 1 and t[1][0] in ("!=", "not in", "is not"):
+                t, pol = ("cmp", ({"!=": "==", "not in": "in", "is not": "is"}[t[1][0]],), t[2]), not pol
+            return (t, pol) + tuple(g[2:])
+        for ev in self.events:
+            ev.guards = tuple(npair(g) for g in ev.guards)
+        self.ex.loop_guards = dict((k, tuple(npair(g) for g in v)) for k, v in self.ex.loop_guards.items())
         self._fold_local_dicts()
         self._fold_patched_mappings()
         # Event.raw/raw_target/raw_guards keep the gated (path-sensitive) merges of if statements for T.select(); the default
